@@ -31,6 +31,7 @@ func init() {
 			c06Merge(r)
 			c09SanitizeKeepsVersions(r)
 			c06CollectedVersionsComplete(r)
+			c06ReadRepairOnlyCurrentHolders(r)
 			c04ReplicaVerbatim(r)
 			c03PreviousOwners(r)
 			tableUpdateWritesVersion(r, "update-writes-version")
